@@ -278,6 +278,10 @@ def _dep(dep):
 def _desc(d, indent=""):
     if d is None:
         return ""
+    # every other eligible description is written as a block string (value unchanged by the block-string algorithm)
+    if d and d == d.strip() and "\n" not in d and "\r" not in d and '"""' not in d and not d.endswith('"') \
+            and not d.endswith("\\") and len(d) % 2 == 0:
+        return indent + '"""' + d + '"""' + "\n"
     return indent + esc_string(d) + "\n"
 
 
